@@ -605,7 +605,7 @@ def reductions(case):
         if z[0] in ("fix", "big"):
             v = z[1]
             enc = fix if z[0] == "fix" else big
-            for c in (v // 2, v // 10, -(-v // 2), v + 1 if v < 0 else v - 1, -1 if v < 0 else 1):
+            for c in (-1 if v < 0 else 1, -(abs(v) >> 64) if v < 0 else v >> 64, -(abs(v) >> 8) if v < 0 else v >> 8, v // 2, -(-v // 2), v + 1 if v < 0 else v - 1):
                 if c != v and (z[0] == "big" or I64_MIN <= c <= I64_MAX):
                     yield head + enc(c)
         elif z[0] == "rat":
